@@ -120,7 +120,7 @@ void vd_audio_make(vh_rng *r, int lang, int kind, long max_samples, vd_audio *ou
     memcpy(out->s, src + off, sizeof(int16_t) * (size_t)n);
     snprintf(out->desc, sizeof(out->desc), "recording %d [%ld,+%ld)", which, off, n);
     if (k == 8) { for (j = 0; j < n / 2; ++j) { int16_t t = out->s[j]; out->s[j] = out->s[n - 1 - j]; out->s[n - 1 - j] = t; } strncat(out->desc, " reversed", sizeof(out->desc) - strlen(out->desc) - 1); }
-    if (k == 9) { long pad = vh_range(r, 1600, 32000); memmove(out->s + pad, out->s, sizeof(int16_t) * (size_t)n); memset(out->s, 0, sizeof(int16_t) * (size_t)pad); out->n = n + pad; strncat(out->desc, " after leading silence", sizeof(out->desc) - strlen(out->desc) - 1); }
+    if (k == 9) { long pad = vh_range(r, 1600, 32000); if (max_samples > 0 && n + pad > max_samples) { if (n > max_samples / 2) n = max_samples / 2; pad = max_samples - n; out->n = n; } memmove(out->s + pad, out->s, sizeof(int16_t) * (size_t)n); memset(out->s, 0, sizeof(int16_t) * (size_t)pad); out->n = n + pad; strncat(out->desc, " after leading silence", sizeof(out->desc) - strlen(out->desc) - 1); }
     if (vh_chance(r, 0.2)) { int amp = VH_PICK(r, ((int[]){ 20, 300, 3000 })); add_noise(r, out->s, out->n, amp); snprintf(out->desc + strlen(out->desc), sizeof(out->desc) - strlen(out->desc), " +noise%d", amp); }
     if (vh_chance(r, 0.1)) { int g = vh_range(r, 2, 8); for (j = 0; j < out->n; ++j) { long v = (long)out->s[j] * g; out->s[j] = (int16_t)(v > 32767 ? 32767 : v < -32768 ? -32768 : v); } snprintf(out->desc + strlen(out->desc), sizeof(out->desc) - strlen(out->desc), " gain%d(clipped)", g); }
 }
@@ -134,7 +134,19 @@ config_t *vd_make_config(const vd_cfg *c)
     config_set_str(cf, "hmm", vh_path("%s/model/%s", vh_repo, lang_dir[c->lang]));
     config_set_str(cf, "loglevel", "FATAL");
     config_set_int(cf, "samprate", c->samprate);
-    if (c->cmn) config_set_str(cf, "cmn", c->cmn);
+    if (c->cmn) {
+        /* the model's feat_params.json is parsed AFTER the user's settings and overrides them, so the only way
+         * to choose the normalisation mode is a feature-parameter file of our own (a copy with "cmn" replaced) */
+        size_t n = 0; char *fp = (char *)vh_read_file(vh_path("%s/model/%s/feat_params.json", vh_repo, lang_dir[c->lang]), &n);
+        if (fp) {
+            char *q = strstr(fp, "\"cmn\""); vh_sb sb; vh_sb_init(&sb);
+            if (q) { char *e = strchr(q, ','); if (!e) e = strchr(q, '}'); vh_sb_write(&sb, fp, (size_t)(q - fp)); vh_sb_printf(&sb, "\"cmn\": \"%s\"", c->cmn); vh_sb_write(&sb, e, strlen(e)); }
+            else vh_sb_write(&sb, fp, n);
+            { char *path = vh_path("%s/featparams-%s-%s.json", vh_tmpdir(), lang_dir[c->lang], c->cmn); vh_write_file(path, sb.s, sb.n); config_set_str(cf, "featparams", path); }
+            vh_sb_free(&sb); free(fp);
+        }
+        config_set_str(cf, "cmn", c->cmn);
+    }
     config_set_bool(cf, "compallsen", c->compallsen);
     if (c->frate != 100) config_set_int(cf, "frate", c->frate);
     if (c->cionly) config_set_bool(cf, "cionly", 1);
@@ -283,6 +295,14 @@ void vd_gram_random(vh_rng *r, int lang, int kind, double transcript_bias, vd_gr
             vfsa_add(&g->truth, i, i + 1, lab, 0);
         }
         snprintf(g->desc, sizeof(g->desc), "align text, %d words%s", n, with_tr ? " (transcript-based)" : "");
+    } else if (kind == VG_JSGF_SLOTS && vh_chance(r, 0.25)) {
+        /* word loop: many words competing in every frame (keeps the number of active HMMs high) */
+        const char *W[40]; int nw = pick_vocab(r, lang, vh_range(r, 8, 30), with_tr, W), k2;
+        vfsa_init(&g->truth, 2, 0, 1);
+        vh_sb_printf(&g->text, "#JSGF V1.0;\ngrammar loop;\npublic <top> = (");
+        for (k2 = 0; k2 < nw; ++k2) { int lab = vfsa_label(&g->truth, W[k2]); vh_sb_printf(&g->text, "%s %s", k2 ? " |" : "", W[k2]); vfsa_add(&g->truth, 0, 1, lab, 0); vfsa_add(&g->truth, 1, 1, lab, 0); }
+        vh_sb_printf(&g->text, " )+;\n");
+        snprintf(g->desc, sizeof(g->desc), "JSGF word loop over %d words%s", nw, with_tr ? " (incl. the transcript words)" : "");
     } else if (kind == VG_JSGF_SLOTS) {
         int ns = vh_range(r, 1, 5), s, st = 0;
         vfsa_init(&g->truth, 64, 0, 0);
@@ -383,13 +403,13 @@ void vd_pattern_random(vh_rng *r, vd_pattern *p, int allow_full_utt)
     memset(p, 0, sizeof(*p));
     p->full_utt = allow_full_utt && vh_chance(r, 0.2);
     p->use_float = vh_chance(r, 0.25);
-    p->style = (int)vh_below(r, 6);
+    p->style = (int)vh_below(r, 7);
     p->no_search_chunks = vh_chance(r, 0.2) ? (vh_chance(r, 0.4) ? -1 : vh_range(r, 1, 6)) : 0;
     p->partial_prob = vh_chance(r, 0.6) ? vh_unit(r) : 0.0;
 }
 void vd_pattern_desc(const vd_pattern *p, char *buf, size_t n)
 {
-    static const char *st[] = { "2048-sample chunks", "one streaming call", "random chunks", "tiny chunks", "first chunk < 1 frame", "huge chunks" };
+    static const char *st[] = { "2048-sample chunks", "one streaming call", "random chunks", "tiny chunks", "first chunk < 1 frame", "huge chunks", "short chunk then the rest" };
     if (p->full_utt) snprintf(buf, n, "%s full_utt", p->use_float ? "float32" : "int16");
     else snprintf(buf, n, "%s %s no_search_chunks=%d partial_prob=%.2f", p->use_float ? "float32" : "int16", st[p->style], p->no_search_chunks, p->partial_prob);
 }
@@ -427,6 +447,7 @@ int vd_run(decoder_t *d, const vd_audio *a, vh_rng *r, const vd_pattern *p, vd_p
             case 2: len = vh_chance(r, 0.3) ? vh_range(r, 1, 400) : vh_range(r, 1, 9000); break;
             case 3: len = a->n > 40000 ? vh_range(r, 160, 400) : vh_range(r, 1, 200); break;
             case 4: len = chunkno == 0 ? vh_range(r, 1, 300) : 2048; break;
+            case 6: len = chunkno == 0 ? vh_range(r, 800, 6000) : a->n; break;   /* a short chunk, then everything else in one call */
             default: len = vh_range(r, 20000, 60000); break;
             }
             if (pos + len > a->n) len = a->n - pos;
